@@ -201,14 +201,14 @@ pub fn replay_c05(ctx: &Ctx, v: &Value) -> Report {
 pub enum Ev {
     Good, Same, MissingFile, WrongHash, MftBadSig, MftExpiredEe,
     StaleReject, StaleWarn, StaleAccept, Premature, CrlMissing, CrlBadSig,
-    CrlWrongHash, Unreachable, NotListedExtra,
+    CrlWrongHash, Unreachable, NotListedExtra, MftEeRevoked,
 }
 
-pub const EVENTS: [Ev; 15] = [
+pub const EVENTS: [Ev; 16] = [
     Ev::Good, Ev::Same, Ev::MissingFile, Ev::WrongHash, Ev::MftBadSig,
     Ev::MftExpiredEe, Ev::StaleReject, Ev::StaleWarn, Ev::StaleAccept,
     Ev::Premature, Ev::CrlMissing, Ev::CrlBadSig, Ev::CrlWrongHash,
-    Ev::Unreachable, Ev::NotListedExtra,
+    Ev::Unreachable, Ev::NotListedExtra, Ev::MftEeRevoked,
 ];
 
 struct Version { image: Image, tag: u8 }
@@ -259,6 +259,7 @@ fn c04_case(gen: &Gen, dir: PathBuf, seq: &[Ev]) -> Result<String, (String, Stri
             Ev::CrlMissing => (Builder::at(gen, Stale::Reject, now).build(&tree(tag, num, tu, None, Some(PointFault::CrlMissing))), false),
             Ev::CrlBadSig => (Builder::at(gen, Stale::Reject, now).build(&tree(tag, num, tu, None, Some(PointFault::CrlBadSig))), false),
             Ev::CrlWrongHash => (Builder::at(gen, Stale::Reject, now).build(&tree(tag, num, tu, None, Some(PointFault::CrlWrongHash))), false),
+            Ev::MftEeRevoked => (Builder::at(gen, Stale::Reject, now).build(&tree(tag, num, tu, None, Some(PointFault::MftEeRevoked))), false),
             Ev::Unreachable => {
                 case.set_unreachable("ca1.example", "repo", true);
                 (Builder::at(gen, Stale::Reject, now).build(&tree(tag, num, tu, None, None)), false)
